@@ -325,9 +325,9 @@ def run(ctx):
     ctx.rule("C04.flush", "enqueue-before-test, single locked drain, stream event wiring", floor=6)
     ctx.rule("C04.attempt", "per-attempt resources / reset", floor=3)
     ctx.assume("consonance calls the state callback and the stream events synchronously; the Noise handshake itself and chunkings (C05) are not decided here")
-    rule_prologue(ctx)
-    rule_config(ctx)
-    rule_finish(ctx)
-    rule_rs(ctx)
-    rule_flush(ctx)
-    rule_attempt(ctx)
+    ctx.guarded("C04.prologue", rule_prologue, ctx)
+    ctx.guarded("C04.config", rule_config, ctx)
+    ctx.guarded("C04.finish", rule_finish, ctx)
+    ctx.guarded("C04.rs", rule_rs, ctx)
+    ctx.guarded("C04.flush", rule_flush, ctx)
+    ctx.guarded("C04.attempt", rule_attempt, ctx)
